@@ -57,7 +57,7 @@ class FGen:
         elif k == "array": s = self.title({"type": "array", "items": self.schema(depth - 1, keys)}, 0.2)
         elif k == "nullable":
             inner = self.schema(depth - 1, [], byvalue_refs)
-            while "$ref" in inner or isinstance(inner.get("type"), list):
+            while "$ref" in inner or not isinstance(inner.get("type"), str):
                 inner = self.schema(depth - 1, [], byvalue_refs)
             s = dict(inner); s["type"] = [inner["type"], "null"] if r.random() < .8 else ["null", inner["type"]]
         else:
